@@ -725,7 +725,15 @@ func explore(sc scenario, bound int, st *stats, onFinding func(v violation, f re
 		if len(fs) > 0 {
 			// determinism guard: the same schedule must fail the same way again
 			fs2, _, _ := check(sc, choicesOf(r))
-			if fmt.Sprint(keys(fs)) != fmt.Sprint(keys(fs2)) {
+			if onlyRacesLost(fs, fs2) {
+				// unordered conflicting accesses were OBSERVED (the vector-clock verdict does not depend on
+				// timing); that the same schedule does not show them again means the library keeps state
+				// between executions (a process-wide cache that is warm now). The race is real: report it.
+				for _, f := range fs {
+					f.What += " [seen on the first execution of this schedule only: the library keeps process-wide state between executions; reproduces in a fresh process]"
+					onFinding(violation{Scenario: sc, Prefix: choicesOf(r), Kind: f.Key, What: f.What}, f)
+				}
+			} else if fmt.Sprint(keys(fs)) != fmt.Sprint(keys(fs2)) {
 				onFinding(violation{Scenario: sc, Prefix: choicesOf(r), Kind: "harness"}, rep.F("harness|nondeterministic", fmt.Sprintf("%v vs %v", keys(fs), keys(fs2))))
 			} else {
 				for _, f := range fs {
@@ -755,6 +763,34 @@ func explore(sc scenario, bound int, st *stats, onFinding func(v violation, f re
 		}
 	}
 	rec(nil)
+}
+
+// onlyRacesLost: every finding of the first execution that the second one lacks is a data race
+// (and the second one has nothing new).
+func onlyRacesLost(a, b []rep.Finding) bool {
+	in := func(k string, fs []rep.Finding) bool {
+		for _, f := range fs {
+			if f.Key == k {
+				return true
+			}
+		}
+		return false
+	}
+	lost := 0
+	for _, f := range a {
+		if !in(f.Key, b) {
+			if !strings.Contains(f.Key, "|data-race|") {
+				return false
+			}
+			lost++
+		}
+	}
+	for _, f := range b {
+		if !in(f.Key, a) {
+			return false
+		}
+	}
+	return lost > 0
 }
 
 func keys(fs []rep.Finding) []string {
